@@ -384,6 +384,81 @@ def check_in_shells(ctx, H, cov, items, batch=2000):
                         "spec_eval": None if spec_out is None else hexs(spec_out)})
 
 
+
+# ------------------------------------------------------------------------------ the Spec itself against the shells
+HAND_SPEC_SCRIPTS = [
+    b"printf 'a\\1b'\n", b"printf '\\18'\n", b"printf '\\101\\1012'\n", b"printf '\\7\\07\\007\\0007'\n", b"printf '\\a\\b\\f\\n\\r\\t\\v\\\\'\n",
+    b"printf '%s-%s' a\n", b"printf '%s%%%s' 'x y' z # c\n", b"printf ''\n", b"printf 'a'#b\n", b"printf a#b\n", b"printf '%s' a'b c'd\n",
+    b"printf '%s' ''\n", b"\n\n# only a comment\n\t \nprintf 'x'\n", b"printf\t'%s,%s'\t1  2\t#c\n", b"#printf 'x'\n", b" # c\nprintf 'y' #'\n",
+    b"printf '%s' \"$(printf 'hello world' | base64 -w0)\"\n", b"printf '%s' x\"$(printf '\\000\\377' | base64 -w0)\"y\n",
+    b"printf '%s' \"$( printf  'a'|base64 -w0 )\"\n", b"printf '%s' \"$(printf '%s%%' | base64 -w0)\"\n", b"printf 'no newline at end'",
+    b"printf '\\055x'\n", b"printf '%s' -x\n", b"printf '\\400'\n", b"printf 'a' 'b'\n", b"printf '%s' a b\n", b"printf '%d' 1\n", b"printf '-x'\n",
+]
+
+
+def gen_spec_script(rng):
+    lines = []
+    for _ in range(rng.randrange(1, 4)):
+        r = rng.random()
+        if r < 0.1:
+            lines.append(rng.choice(["", "  ", "\t", "# a 'comment' \"$(x)\"", "   #c"]))
+            continue
+        pieces, nargs = [], 0
+        for _ in range(rng.randrange(0, 9)):
+            k = rng.randrange(7)
+            if k == 0:
+                pieces.append(rng.choice("abcXYZ019 .,:;-_=+/#\"$`(){}[]|&<>*?!~"))
+            elif k == 1:
+                pieces.append("\\" + rng.choice("\\abfnrtv"))
+            elif k == 2:
+                pieces.append("\\" + "".join(rng.choice("01234567") for _ in range(rng.randrange(1, 4))))
+            elif k == 3:
+                pieces.append("%%")
+            elif k == 4:
+                pieces.append("%s")
+                nargs += 1
+            elif k == 5:
+                pieces.append(rng.choice("0189"))
+            else:
+                pieces.append(rng.choice(["\\x", "%d", "\\", "%"]) if rng.random() < 0.1 else "z")
+        args = []
+        for _ in range(nargs - (1 if nargs and rng.random() < 0.2 else 0)):
+            t = rng.randrange(5)
+            if t == 0:
+                args.append("'" + "".join(rng.choice("ab \\%$\"#") for _ in range(rng.randrange(0, 5))) + "'")
+            elif t == 1:
+                args.append("".join(rng.choice("abcXYZ09%+,-./:=@_") for _ in range(rng.randrange(1, 6))))
+            elif t == 2:
+                inner = "".join(rng.choice(["a", "b ", "\\n", "\\000", "\\101", "%%", "\\\\"]) for _ in range(rng.randrange(0, 6)))
+                args.append("\"$(printf '" + inner + "' | base64 -w0)\"")
+            elif t == 3:
+                args.append("x'y z'w#v")
+            else:
+                args.append("''")
+        sep = rng.choice([" ", "  ", "\t"])
+        line = "printf" + sep + "'" + "".join(pieces) + "'" + "".join(sep + a for a in args)
+        if rng.random() < 0.3:
+            line += rng.choice([" # c", "\t#c 'x", " #", " # \"$(y)\""])
+        lines.append(line)
+    return ("\n".join(lines) + ("\n" if rng.random() < 0.8 else "")).encode()
+
+
+def check_spec_vs_shells(ctx, model, cov):
+    """Scripts beyond what the exporter emits (1-2 digit octal, \\a..\\v, missing arguments, adjacent quoting, '#' inside a
+    word, tabs, blank and comment lines): wherever the Spec gives an answer, dash and bash must print exactly that."""
+    scripts = list(HAND_SPEC_SCRIPTS) + [gen_spec_script(ctx.rng) for _ in range(ctx.pick(400, 6000))]
+    reps = model.batch([f"c18.spec_eval {hexs(s)}" for s in scripts])
+    keep = [(s, unhex(r)) for s, r in zip(scripts, reps)]
+    cov.bump("spec-vs-shell/spec-none", sum(1 for _, o in keep if o is None))
+    keep = [(s, o) for s, o in keep if o is not None]
+    res = run_in_shells(ctx, [s for s, _ in keep], "spec")
+    for name, outs in res.items():
+        for (s, o), (got, e) in zip(keep, outs):
+            cov.add({"spec_script": hexs(s)}, nontrivial=len(o) > 0, klass=f"spec-vs-shell/{name}", sample_every=100003)
+            if got != o:
+                ctx.corr_breaks.append({"what": f"Spec.PosixShSpec.eval disagrees with {name} on a hand/grammar-generated script", "case": s.decode("latin-1"),
+                                        "impl": None if got is None else hexs(got), "model": hexs(o), "stderr": e.decode("latin-1")})
+
 # ------------------------------------------------------------------------------ sessions through GraphicsTerminal
 def gen_session(ctx):
     rng = ctx.rng
@@ -526,6 +601,14 @@ def check_sessions(ctx, model, H, cov):
             else:
                 evs.append(f"R:{hexs(ev[1].encode('utf-8'))}")
                 ascii_ok = ascii_ok and all(ord(ch) < 128 for ch in ev[1])
+                # hypothesis of C18_session_reproduces: a raw text is a blank line or one "# ..." comment line
+                t = ev[1]
+                if not (t == "\n" or (t.startswith("# ") and t.endswith("\n") and "\n" not in t[:-1] and "\0" not in t)):
+                    ctx.corr_breaks.append({"what": "text written to the script outside write_to_shellscript is neither a blank line nor a comment line "
+                                                    "(hypothesis of C18_session_reproduces not met)", "case": t[:200]})
+            if ev[0] == "W" and ("\n" in ev[2] or "\0" in ev[2] or not all(ord(ch) < 128 for ch in ev[2])):
+                ctx.corr_breaks.append({"what": "comment passed to write_to_shellscript is not ASCII text without newline/NUL (hypothesis of C18_script_reproduces not met)",
+                                        "case": ev[2][:200]})
         script = bytes.fromhex(res["script"])
         sent = b"".join(bytes.fromhex(w) for w in res["writes"])
         reqs.append("c18.session " + " ".join(evs) if evs else "c18.session")
@@ -593,6 +676,7 @@ def run(ctx, model):
     H = tup.graphics_terminal.ShellScriptBinaryIOHelper
     check_base64_library(ctx, model, cov)
     check_ratio(ctx, cov)
+    check_spec_vs_shells(ctx, model, cov)
     check_scripts(ctx, model, H, cov)
     check_sessions(ctx, model, H, cov)
     # of several violations of one class report one that a real shell confirmed, the shortest first
